@@ -342,7 +342,7 @@ def oracle_multiplex(case, ctx):
         f = pools.build_forecaster(spec)
         r = sut(f.fit, y0.copy(), None, fh_obj(case, y0.index[-1]))
         if not isinstance(r, Raised):
-            f.set_params(selected_forecaster="m%d" % other)
+            f.set_params(selected_forecaster="f" + "_x" * other)
             a = sut(lambda: f.fit(y0.copy(), None, fh_obj(case, y0.index[-1])).predict())
             b = sut(lambda: pools.build_forecaster(spec["members"][other]).fit(y0.copy(), None, fh_obj(case, y0.index[-1])).predict())
             discs += same(a, b, "multiplex_reselected", desc)
